@@ -115,6 +115,38 @@ fn sha256_empty() -> [u8; 32] {
      0x27, 0xae, 0x41, 0xe4, 0x64, 0x9b, 0x93, 0x4c, 0xa4, 0x95, 0x99, 0x1b, 0x78, 0x52, 0xb8, 0x55]
 }
 
+struct Scripted {
+    hops: Vec<(bool, bool, bool)>,
+    calls: std::sync::atomic::AtomicUsize,
+    reached_internal: std::sync::atomic::AtomicBool,
+}
+
+struct ScriptedRef(std::sync::Arc<Scripted>);
+
+impl c2pa::http::SyncHttpResolver for ScriptedRef {
+    fn http_resolve(
+        &self,
+        request: http::Request<Vec<u8>>,
+    ) -> Result<http::Response<Box<dyn std::io::Read>>, c2pa::http::HttpResolverError> {
+        use std::sync::atomic::Ordering::SeqCst;
+        let k = self.0.calls.fetch_add(1, SeqCst);
+        if request.uri().host() == Some("127.0.0.1") {
+            self.0.reached_internal.store(true, SeqCst);
+        }
+        let (redirect, internal, error) = self.0.hops.get(k).copied().unwrap_or((false, false, false));
+        if error {
+            return Err(c2pa::http::HttpResolverError::Other("scripted transport failure".into()));
+        }
+        let body: Box<dyn std::io::Read> = Box::new(std::io::empty());
+        if redirect {
+            let loc = if internal { "http://127.0.0.1/internal".to_string() } else { format!("http://example.com/hop{}", k + 1) };
+            Ok(http::Response::builder().status(302).header("location", loc).body(body).unwrap())
+        } else {
+            Ok(http::Response::builder().status(200).body(body).unwrap())
+        }
+    }
+}
+
 fn call(f: &str, a: &[Value]) -> Value {
     match f {
         "to_manifest_uri" => json!(lh::to_manifest_uri(s(&a[0]))),
@@ -156,6 +188,38 @@ fn call(f: &str, a: &[Value]) -> Value {
             Err(_) => json!({"variant":"Err","payload":[null]}),
         },
         "merkle_scenario" => merkle_scenario(a),
+        // BMFF header parsers on raw bytes: args = [data (latin-1), start position]
+        "bmff_box_header" => {
+            let data: Vec<u8> = s(&a[0]).chars().map(|c| c as u32 as u8).collect();
+            let mut cur = std::io::Cursor::new(data);
+            cur.set_position(a[1].as_u64().unwrap());
+            match c2pa::verif_hooks::bmff_io::verif_hooks::box_header_lite_read(&mut cur) {
+                Ok((size, large)) => json!({"variant":"Ok","payload":[{"size": size, "large_size": large}]}),
+                Err(_) => json!({"variant":"Err","payload":[null]}),
+            }
+        }
+        "bmff_ftyp" => {
+            let data: Vec<u8> = s(&a[0]).chars().map(|c| c as u32 as u8).collect();
+            let mut cur = std::io::Cursor::new(data);
+            cur.set_position(a[1].as_u64().unwrap());
+            match c2pa::verif_hooks::bmff_io::verif_hooks::read_ftyp_box(&mut cur) {
+                Ok((minor, n)) => json!({"variant":"Ok","payload":[{"minor_version": minor, "brands": n}]}),
+                Err(_) => json!({"variant":"Err","payload":[null]}),
+            }
+        }
+        // real RedirectResolver over a scripted transport: args = [allow_redirects, [{redirect, internal, error}...]]
+        "redirect_chain" => {
+            let allow = a[0].as_bool().unwrap();
+            let hops: Vec<(bool, bool, bool)> = a[1].as_array().unwrap().iter()
+                .map(|h| (h["redirect"].as_bool().unwrap(), h["internal"].as_bool().unwrap(), h["error"].as_bool().unwrap())).collect();
+            let t = Scripted { hops, calls: std::sync::atomic::AtomicUsize::new(0), reached_internal: std::sync::atomic::AtomicBool::new(false) };
+            let tref = std::sync::Arc::new(t);
+            let req = http::Request::get("http://example.com/start").body(Vec::new()).unwrap();
+            let res = rh::redirect_resolve(ScriptedRef(tref.clone()), allow, req);
+            json!({"ok": res.is_ok(), "calls": tref.calls.load(std::sync::atomic::Ordering::SeqCst),
+                   "reached_internal": tref.reached_internal.load(std::sync::atomic::Ordering::SeqCst),
+                   "error": res.err().map(|e| e.to_string())})
+        }
         // MerkleAccumulator::add_merkle_leaf: args = [mdat bytes (latin-1), [cut offsets], large_size, fixed leaf size in BYTES]
         "merkle_accumulate" => {
             use c2pa::verif_hooks::merkle::MerkleAccumulator;
